@@ -120,11 +120,10 @@ def e2e_case(root, g, ops, kind, sig, crash_point, hit, delay_ms):
                 if p.poll() is None:
                     if kind == 'kill':
                         os.killpg(p.pid, signal.SIGKILL)       # ninja ...
-                        for pid in traced_pids(sim.trace_path):    # ... and every command it started (own process groups)
-                            try:
-                                os.kill(pid, signal.SIGKILL)
-                            except OSError:
-                                pass
+                        # ... and every command it started: they have process groups of their own but share ninja's
+                        # session (a command forked a moment ago has no start record in the trace yet, so the trace is
+                        # not enough to find them all - a survivor would rewrite its outputs during the recovery builds)
+                        kill_session(p.pid)
                         labels.add('sigkill_tree')
                     else:
                         os.kill(p.pid, sig)
@@ -137,9 +136,8 @@ def e2e_case(root, g, ops, kind, sig, crash_point, hit, delay_ms):
             rc = p.returncode
             if kind == 'point':
                 # ninja died on its own; the commands it had started run to completion like any orphan would
-                time.sleep(0.15)      # a command spawned just before the crash needs a moment to write its start record
-                for _ in range(300):
-                    if not traced_pids(sim.trace_path):
+                for _ in range(600):
+                    if not session_pids(p.pid):     # they share ninja's session (the trace may not list the youngest yet)
                         break
                     time.sleep(0.01)
             evs = []
@@ -193,6 +191,34 @@ def e2e_case(root, g, ops, kind, sig, crash_point, hit, delay_ms):
         return None, labels
     finally:
         sim.close()
+
+
+def session_pids(sid):
+    out = []
+    for d in os.listdir("/proc"):
+        if not d.isdigit():
+            continue
+        try:
+            f = open("/proc/%s/stat" % d).read().rsplit(")", 1)[1].split()
+        except (OSError, IndexError):
+            continue
+        if f[0] != 'Z' and int(f[3]) == sid:
+            out.append(int(d))
+    return out
+
+
+def kill_session(sid):
+    """SIGKILL every process of the session until none is left (children may fork while we look)"""
+    for _ in range(50):
+        pids = session_pids(sid)
+        if not pids:
+            return
+        for pid in pids:
+            try:
+                os.kill(pid, signal.SIGKILL)
+            except OSError:
+                pass
+        time.sleep(0.005)
 
 
 def pid_alive(pid):
